@@ -274,6 +274,7 @@ func c08SCIONPacket(tp *simcore.Tape, l4dst uint16, segLens []int, withAuth, wit
 }
 
 func c08SCIONListener(r *simcore.Run, tp *simcore.Tape) map[string]any {
+	scDrawFamily(r)
 	w := newSCIONWorld(r, 0, 1)
 	auth := tp.Bool(1, 2, "auth")
 	w.startServers(1, auth, 0, nil, false)
@@ -283,7 +284,7 @@ func c08SCIONListener(r *simcore.Run, tp *simcore.Tape) map[string]any {
 			replies++
 		}
 	}
-	rtr := netip.AddrPortFrom(netip.MustParseAddr("10.0.1.1"), scRouterPort)
+	rtr := netip.AddrPortFrom(netip.MustParseAddr(scRouterIP(0)), scRouterPort)
 	ntpReq := func() []byte {
 		h := make([]byte, 48)
 		rand.Read(h[1:])
@@ -394,7 +395,7 @@ func c08CSPTPListener(r *simcore.Run, tp *simcore.Tape) map[string]any {
 	w := newIPWorld(r, 0, 0)
 	conns := map[int]*simnet.UDPConn{}
 	for _, port := range []int{csptp.EventPortIP, csptp.GeneralPortIP} {
-		c, err := w.net.Listen(fmt.Sprintf("%s:%d", ipSrvIP, port), true)
+		c, err := w.net.Listen(hp(ipSrvIP, port), true)
 		if err != nil {
 			panic(err)
 		}
@@ -482,7 +483,7 @@ func c08KEServer(r *simcore.Run, tp *simcore.Tape) map[string]any {
 		defer r.Finish()
 		for round := 0; round < 6 && r.Violation() == nil; round++ {
 			for i := 0; i < 1+tp.Intn(3, "burst"); i++ {
-				raw, err := w.net.DialStream(w.atk, fmt.Sprintf("%s:%d", ipSrvIP, kePort))
+				raw, err := w.net.DialStream(w.atk, hp(ipSrvIP, kePort))
 				if err != nil {
 					r.Fail("harness", "c08/dial", "%v", err)
 					return
@@ -626,6 +627,7 @@ func c08IPClient(r *simcore.Run, tp *simcore.Tape) map[string]any {
 }
 
 func c08SCIONClient(r *simcore.Run, tp *simcore.Tape) map[string]any {
+	scDrawFamily(r)
 	w := newSCIONWorld(r, 0, 1)
 	auth := tp.Bool(1, 2, "auth")
 	w.startServers(1, auth, 0, nil, false)
@@ -766,8 +768,8 @@ func c08SCIONReply(tp *simcore.Tape, rp *scionPkt, withAuth, withTS int) []byte 
 func c08CSPTPClient(r *simcore.Run, tp *simcore.Tape) map[string]any {
 	w := newIPWorld(r, 0, 0)
 	// a scripted CSPTP server (the repository's own does not answer yet)
-	ev, _ := w.net.Listen(fmt.Sprintf("%s:%d", ipSrvIP, csptp.EventPortIP), false)
-	gn, _ := w.net.Listen(fmt.Sprintf("%s:%d", ipSrvIP, csptp.GeneralPortIP), false)
+	ev, _ := w.net.Listen(hp(ipSrvIP, csptp.EventPortIP), false)
+	gn, _ := w.net.Listen(hp(ipSrvIP, csptp.GeneralPortIP), false)
 	crafted := 0
 	serve := func(c *simnet.UDPConn, tag string) {
 		w.goSafe(tag, func() {
@@ -830,7 +832,7 @@ func c08KEClient(r *simcore.Run, tp *simcore.Tape) map[string]any {
 	w.net.Names = map[string]netip.Addr{keHost: netip.MustParseAddr(ipSrvIP)}
 	cert, pool := mkCert([]string{keHost}, []string{ipSrvIP})
 	w.startListeners(1, ntske.NewProvider())
-	lst, _ := w.net.ListenStream(fmt.Sprintf("%s:%d", ipSrvIP, kePort), nil)
+	lst, _ := w.net.ListenStream(hp(ipSrvIP, kePort), nil)
 	crafted := 0
 	w.goSafe("ke-accept", func() {
 		for k := 0; ; k++ {
